@@ -155,16 +155,12 @@ impl Selector {
             let mut result = Vec::new();
             for s in &ctx.s.s {
                 let compound = s.compound.append(&self.compound)?;
-                result.extend(
-                    Selector {
+                if s.rel_of.is_none() || !compound.is_empty() {
+                    result.push(Selector {
                         rel_of: s.rel_of.clone(),
-                        compound: CompoundSelector::default(),
-                    }
-                    .unify(Selector {
-                        rel_of: self.rel_of.clone(),
                         compound,
-                    }),
-                );
+                    });
+                }
             }
             result
         } else {
